@@ -41,15 +41,14 @@ PROP = {'gen': [],
                'panics; for a caller that stops a write operation at its first Err, outcome and writer state do not depend on how written '
                'bytes are partitioned (in a session: the bytes between two parent operations; a caller ignoring Err can observe the split: C09_ignoring_errors_refuted); the escape-sequence '
                'write loop as coded equals the fold over bytes for any automaton; a text rendered at the size its layout reported shows every printable cell exactly once in reading '
-               '(hypotheses: no carriage return among the written cells, the constraint does not cut the measured height, the layout '
-               'rectangle is non-empty and inside the view) '
-               'order (without wrapping: exactly those not beyond the right edge); a Text deserialised from JSON (TextDeserializer) holds '
+               'order (without wrapping: exactly those not beyond the right edge; hypotheses: no carriage return among the written cells, '
+               'the constraint does not cut the measured height, the layout rectangle is non-empty and inside the view); a Text deserialised from JSON (TextDeserializer) holds '
                'exactly the characters and glyphs of the document in document order under the faces of the enclosing objects, except the '
                '"text" of an object that also has a "glyph", which TextDeserializer does not visit; the reference of the predicate is proved '
                'equal to the notions of the theorems (C09_reference_link). Model tied to the code by a differential run '
                '(canvas of sentinel cells, plain/offset/strided/transposed views, all partitions of short strings).',
  'level_note': 'Trusted: Coq kernel + vm_compute; hand-written model validated by the correspondence run; char widths (unicode-width), '
-               'image cell sizes, glyph sizes, the dump of TTY_COMMAND_AUTOMATA and the effect of SGR sequences on faces are sent by the '
+               'image cell sizes, glyph sizes, the dump of TTY_COMMAND_AUTOMATA, the effect of SGR sequences on faces and parsed JSON faces are sent by the '
                'harness with each case. CR excluded from the no-lost-cell theorems. No axioms (Print Assumptions: closed).',
  'technique': 'Coq proof (induction over cell sequences and write partitions, frame conditions over the shape algebra of C07) + '
               'model/implementation correspondence',
@@ -60,9 +59,9 @@ PROP = {'gen': [],
  'level': 'proof',
  'trusted_base': [KERNEL,
                   'hand-written model Render/CellLayout.v, Render/Writer.v of Cell::layout, TerminalWriter::put_cell, Utf8Decoder, the '
-                  'io::Write adapters, Text::layout/render, tied to the code by the correspondence run',
+                  'io::Write adapters, put_text, adapter sessions, Text::layout/render, TextDeserializer, tied to the code by the correspondence run',
                   'oracles sent with each case: unicode-width of every character used, Image::size_cells, Glyph::size, the automaton '
-                  'the crate compiles for TTYCommandDecoder (verif-hooks dump), SGR sequence -> face effect computed by the crate (C06)',
+                  'the crate compiles for TTYCommandDecoder (verif-hooks dump), SGR sequence -> face effect computed by the crate (C06), the crate\'s Face parser for faces of JSON text documents (C14)',
                   HARNESS],
  'assumptions': ['cell sizes, cursor positions and text lengths stay below 2^63 (no usize overflow in cursor arithmetic)',
                  'colours are opaque (alpha 255) in the correspondence run; the theorems do not depend on the face algebra',
